@@ -59,18 +59,20 @@ func (s *Spec) Encoded() []byte {
 		return DeflateVariant(s.Payload, "flush")
 	case "deflate-stored":
 		return DeflateVariant(s.Payload, "stored")
+	case "deflate-zlibish":
+		return DeflateVariant(s.Payload, "zlibish")
 	}
 	return s.Payload
 }
 
 // EncVariants are the content codings beyond the one-shot streams (header value gzip / deflate).
-var EncVariants = []string{"gzip-multi", "gzip-multi", "gzip-hdr", "gzip-flush", "deflate-flush", "deflate-stored"}
+var EncVariants = []string{"gzip-multi", "gzip-multi", "gzip-hdr", "gzip-flush", "deflate-flush", "deflate-stored", "deflate-zlibish", "deflate-zlibish"}
 
 func (s *Spec) CEHeader() string {
 	switch s.Enc {
 	case "gzip", "gzip-bad", "gzip-multi", "gzip-hdr", "gzip-flush":
 		return "gzip"
-	case "deflate-flush", "deflate-stored":
+	case "deflate-flush", "deflate-stored", "deflate-zlibish":
 		return "deflate"
 	case "":
 		return ""
